@@ -333,9 +333,18 @@ def e2e_inputs(case):
     return files, truth
 
 
+# switches the Power series does not depend on (they register or leave out OTHER stages); chosen from the case
+E2E_EXTRA = [[], ["--drop_globals"], ["-t"], ["--flow"], ["--disable_tb"], ["--keep_prep"], ["-M"], ["-C", "power_ts4"],
+             ["--power-stats"], ["--drop_globals", "--flow", "-t"]]
+
+
 def run_e2e(case):
     files, truth = e2e_inputs(case)
-    res = stage.e2e(["--freq=512:1100"], files)
+    extra = E2E_EXTRA[case["seed"] % len(E2E_EXTRA)]
+    if case["R"] == 1:
+        # a one-rank "collective" of the scenario builder has an empty peer list: not a well-formed flow input
+        extra = [x for x in extra if x != "--flow"]
+    res = stage.e2e(["--freq=512:1100"] + extra, files)
     if res["error"] or res["rc"] != 0 or res["events"] is None:
         return {"err": f"rc={res['rc']} {res['error']}", "truth": truth}
     out = {}
